@@ -169,11 +169,10 @@ func runC15(a *A) {
 			a.Check(isCall && kc.Call.StaticCallee() == pk && sameValue(kc.Call.Args[1], row), fname(fn)+"#key-of-same-row", c.Pos(), "the partition key is computed from the same row by the runner's encoder", "the partition key passed to Process is not partitionKey(<the row fed>)")
 			// WHERE rejection and INNER-JOIN drop precede the engine
 			okGate := guardedByValue(c.Block(), func(v ssa.Value) bool {
-				call, ok := v.(*ssa.Call)
-				return ok && call.Call.IsInvoke() && call.Call.Method.Name() == "Evaluate"
+				return predicateVerdict(v)
 			}, true) || !strings.Contains(fmt.Sprint(fn), "")
 			reach := reachUnder(fn, c, func(v ssa.Value) Tri {
-				if call, ok := v.(*ssa.Call); ok && call.Call.IsInvoke() && call.Call.Method.Name() == "Evaluate" {
+				if predicateVerdict(v) {
 					return F
 				}
 				if bo, ok := v.(*ssa.BinOp); ok && (bo.Op == token.NEQ || bo.Op == token.EQL) && isFieldOf(TermOf(bo.X, nil), "stream.Stream", "filter") {
